@@ -18,6 +18,7 @@ import (
 	"regexp"
 	"runtime"
 	"runtime/metrics"
+	"runtime/pprof"
 	"strings"
 	"time"
 
@@ -72,10 +73,22 @@ type Result struct {
 }
 
 const (
-	caseWatchdog = 10 * time.Second
-	leakWait     = 10 * time.Second
-	maxValues    = 200000
+	leakWait  = 10 * time.Second
+	maxValues = 200000
 )
+
+// caseWatchdog: a case that has not returned after this time is reported as a hang (the parent
+// confirms it with an isolated re-run under a three times longer watchdog).
+var caseWatchdog = func() time.Duration {
+	if v := os.Getenv("C11_WATCHDOG_MS"); v != "" {
+		var ms int
+		fmt.Sscan(v, &ms)
+		if ms > 0 {
+			return time.Duration(ms) * time.Millisecond
+		}
+	}
+	return 8 * time.Second
+}()
 
 var allocSample = []metrics.Sample{{Name: "/gc/heap/allocs:bytes"}}
 
@@ -154,6 +167,8 @@ func execRead(c *Case, res *Result) {
 		return
 	}
 	binary := c.Reader == "zng" || c.Reader == "vng" || c.Reader == "auto" || c.Reader == "autostream"
+	// The Validate clause of the property is about the binary reader that has a validation option: zngio.
+	validated := c.Reader == "zng" && c.Opts.Validate
 	stopAt := -1
 	mode := c.Consumer
 	if i := strings.IndexByte(mode, ':'); i >= 0 {
@@ -161,11 +176,11 @@ func execRead(c *Case, res *Result) {
 		mode = mode[:i]
 	}
 	var sink zio.WriteCloser
-	if c.Sink != "" && (!binary || c.Opts.Validate) {
+	if c.Sink != "" && (!binary || validated) {
 		sink, _ = anyio.NewWriter(nopWC{&bytes.Buffer{}}, anyio.WriterOpts{Format: c.Sink})
 	}
 	check := func(v zed.Value) bool {
-		if c.Opts.Validate && binary {
+		if validated {
 			if why := structCheck(v.Type(), v.Bytes(), 0); why != "" {
 				res.Outcome, res.Detail = "invalid", why
 				return false
@@ -400,6 +415,12 @@ func childMain(args []string) {
 	sc := bufio.NewScanner(f)
 	sc.Buffer(make([]byte, 1<<20), 64<<20)
 	installHook()
+	if pf := os.Getenv("C11_CPUPROFILE"); pf != "" {
+		f, _ := os.Create(pf)
+		pprof.StartCPUProfile(f)
+		defer pprof.StopCPUProfile()
+		go func() { time.Sleep(40 * time.Second); pprof.StopCPUProfile(); os.Exit(0) }()
+	}
 	idleGoroutines = runtime.NumGoroutine()
 	for sc.Scan() {
 		var c Case
